@@ -6,11 +6,13 @@ mod ext;
 mod ext2;
 mod ext3;
 mod ext4;
+mod ext_stat;
 mod enc;
 mod gen;
 mod interp;
 mod props;
 mod props2;
+mod props_stat;
 mod proto;
 mod rng;
 
